@@ -90,7 +90,19 @@ func (g *Gen) finalFreeVar(fv *ssa.FreeVar) bool {
 		return false
 	}
 	n := countStores(par, al, 0)
-	return n <= 1
+	if n > 1 {
+		return false
+	}
+	// the single store has to be the declaring function's own (the initialisation): a variable without initialiser
+	// whose only store is inside a closure (`var n int; return func() int { n = n + 1; return n }`) is NOT a
+	// constant of that closure (soundness bug reported by a contract-writing agent: `ensures n == old(n)` was proved)
+	direct := 0
+	for _, ref := range *al.Referrers() {
+		if st, ok := ref.(*ssa.Store); ok && st.Addr == al {
+			direct++
+		}
+	}
+	return direct == n
 }
 
 func (g *Gen) finalFreeVarIn(fv *ssa.FreeVar) bool { return g.finalFreeVar(fv) }
